@@ -1,4 +1,4 @@
-\* as coded (StaleFill): TLC must report ReadYourWrites violated (finding #4)
+\* mutant FillOverwrite (plain insert instead of insert-if-vacant), fill otherwise repaired: TLC must report ReadYourWrites violated
 SPECIFICATION Spec
 CONSTANTS
   Keys = {k1, k2}
@@ -6,8 +6,8 @@ CONSTANTS
   Clients = {c1, c2}
   MaxBatches = 2
   MaxOps = 3
-  StaleFill = TRUE
-  FillOverwrite = FALSE
+  StaleFill = FALSE
+  FillOverwrite = TRUE
   NoNegativeEntry = FALSE
   Gen = FALSE
 SYMMETRY Sym
